@@ -215,10 +215,10 @@ Definition acc (s : state) (e : event) : list (loc * bool) :=
       let th := thr s t in
       let r := if Nat.eqb (owner s (f_run (fr s c))) (t_id th) then f_run (fr s c)
                else match t_rec th with Some r => r | None => nrec s end in
-      (LFRun c, false) :: (LRun r, true) :: reuse_acc reuse
+      (LFRun c, false) :: (LRun r, true) :: (LFBody c, false) :: reuse_acc reuse     (* outer.Run; run.Pool...; outer.FileEnv *)
   | ESpawnBegin p reuse =>
       match t_stack (thr s p) with
-      | top :: _ => (LFRun top, false) :: (LRun (f_run (fr s top)), true) :: reuse_acc reuse
+      | top :: _ => (LFRun top, false) :: (LRun (f_run (fr s top)), true) :: (LFBody top, false) :: reuse_acc reuse
       | [] => []
       end
   | EChildSetRun c =>
